@@ -1,0 +1,31 @@
+//go:build verif
+
+package liquidvesting
+
+import (
+	sdk "github.com/cosmos/cosmos-sdk/types"
+
+	"github.com/haqq-network/haqq/x/liquidvesting/keeper"
+	"github.com/haqq-network/haqq/x/liquidvesting/types"
+)
+
+// Ghost compositions for the deductive checker in /verif (compiled only with -tags verif, never called):
+// the round-trip lemmas of C19 are the postconditions of these functions, proved from the contracts of
+// ExportGenesis and InitGenesis alone.
+
+// verifFreshChain stands for "a fresh chain": the module store is in an arbitrary other state.
+func verifFreshChain() {}
+
+// verifReimport: export at any height, initialise a fresh chain from the document.
+func verifReimport(ctx sdk.Context, ctx2 sdk.Context, k keeper.Keeper) {
+	g := ExportGenesis(ctx, k)
+	verifFreshChain()
+	InitGenesis(ctx2, k, *g)
+}
+
+// verifReexport: initialise a fresh chain from a document, export again.
+func verifReexport(ctx sdk.Context, ctx2 sdk.Context, k keeper.Keeper, g types.GenesisState) *types.GenesisState {
+	verifFreshChain()
+	InitGenesis(ctx, k, g)
+	return ExportGenesis(ctx2, k)
+}
